@@ -16,8 +16,21 @@
 
    Recursion: [fit]/[weak] are mutually structural on the expected type,
    [has_semantics_of]/[tmax] structural on self, [feq]/[cast] by a nested
-   fixpoint (outer on self, inner on the other type).  No proofs here. *)
+   fixpoint (outer on self, inner on the other type).  No proofs here.
+
+   The model takes the record [fixes]: one flag per repaired defect of ty.rs.  A flag
+   that is off gives the code of the pinned commit; a flag that is on mirrors the
+   corresponding `fix:` patch (.cache/prompts/C12-2-fix.diff, C12-1-fix.diff,
+   C13-2-fix.diff).  The checks detect which variant the implementation is. *)
 From Capy Require Import Common.Util Common.Ty.
+
+Record fixes : Type := mkFx {
+  fx_max_distinct : bool;   (* C12-2: max's distinct arms are guarded by `other fits into the distinct` *)
+  fx_weak_nominal : bool;   (* C12-1: is_weak_replaceable_by's anon-array arms also require can_fit_into *)
+  fx_feq_uid : bool         (* C13-2: is_functionally_equivalent_to never equates two different named structs *)
+}.
+Definition no_fixes : fixes := mkFx false false false.
+Definition all_fixes : fixes := mkFx true true true.
 
 Definition enum_map := list (N * ty).
 Fixpoint get_enum (m : enum_map) (u : N) : option ty :=
@@ -67,6 +80,9 @@ Fixpoint is_zero_sized (t : ty) : bool :=
   | _ => false
   end.
 
+Section WithFixes.
+Variable fx : fixes.
+
 (* ---- is_functionally_equivalent_to ------------------------------------- *)
 Fixpoint feq (lose : bool) (a : ty) {struct a} : ty -> bool :=
   fix feq_a (b : ty) {struct b} : bool :=
@@ -81,7 +97,12 @@ Fixpoint feq (lose : bool) (a : ty) {struct a} : ty -> bool :=
     | Variant _ _ _ s1 _, Variant _ _ _ s2 _ => feq lose s1 s2
     | Variant _ _ _ s1 _, _ => lose && feq lose s1 b
     | _, Variant _ _ _ s2 _ => feq_a s2
-    | (Struct _ ms1 | AnonStruct ms1), (Struct _ ms2 | AnonStruct ms2) =>
+    (* C13-2 fix: `(ConcreteStruct{uid: u1}, ConcreteStruct{uid: u2}) if u1 != u2 => false` *)
+    | Struct u1 ms1, Struct u2 ms2 =>
+        if fx_feq_uid fx && negb (N.eqb u1 u2) then false else
+        Nat.eqb (length ms1) (length ms2)
+        && all2 (fun p q => N.eqb (fst p) (fst q) && feq lose (snd p) (snd q)) ms1 ms2
+    | Struct _ ms1, AnonStruct ms2 | AnonStruct ms1, Struct _ ms2 | AnonStruct ms1, AnonStruct ms2 =>
         Nat.eqb (length ms1) (length ms2)
         && all2 (fun p q => N.eqb (fst p) (fst q) && feq lose (snd p) (snd q)) ms1 ms2
     | Optional s1, Optional s2 => feq lose s1 s2
@@ -151,8 +172,11 @@ with weak (a e : ty) {struct e} : bool :=
   | UInt 0, IInt _ => true
   | (IInt 0 | UInt 0), TFloat _ => true
   | TFloat 0, TFloat w => negb (N.eqb w 0)
-  | AnonArray n f, Array k x => N.eqb n k && (weak f x || feq false f x)
-  | AnonArray _ f, Slice x => weak f x || feq false f x
+  (* C12-1 fix: `|| (is_functionally_equivalent_to(..) && can_fit_into(..))` *)
+  | AnonArray n f, Array k x =>
+      N.eqb n k && (weak f x || (feq false f x && (negb (fx_weak_nominal fx) || fit f x)))
+  | AnonArray _ f, Slice x =>
+      weak f x || (feq false f x && (negb (fx_weak_nominal fx) || fit f x))
   | Slice f, Slice x => feq false f x
   | Ptr fm fs, Ptr em es => mut_ok fm em && might_be_weak fs && weak fs es
   (* `(ConcreteStruct | AnonStruct, ConcreteStruct) => self.can_fit_into(expected)`:
@@ -209,11 +233,24 @@ Definition max_arm_numbers (a b : ty) : option (option ty) :=
 
 (* arms 9-10: distincts (the assert_eq!(self, non_distinct) compares a value
    with itself and cannot fire) *)
-Definition max_arm_distinct (a b : ty) : option (option ty) :=
-  match a, b with
-  | _, Distinct _ _ => Some (if has_semantics_of b a then Some b else None)
-  | Distinct _ _, _ => Some (if has_semantics_of a b then Some a else None)
-  | _, _ => None
+(* C12-2 fix: both arms become guarded arms
+   `(x, Distinct) if other.has_semantics_of(x) && x.can_fit_into(other) => Some(other)`, so a
+   failed guard falls through to the later arms (first to the second distinct arm). *)
+Definition max_arm_distinct_r (a b : ty) : option (option ty) :=
+  match b with
+  | Distinct _ _ =>
+      if fx_max_distinct fx
+      then (if has_semantics_of b a && fit a b then Some (Some b) else None)
+      else Some (if has_semantics_of b a then Some b else None)
+  | _ => None
+  end.
+Definition max_arm_distinct_l (a b : ty) : option (option ty) :=
+  match a with
+  | Distinct _ _ =>
+      if fx_max_distinct fx
+      then (if has_semantics_of a b && fit b a then Some (Some a) else None)
+      else Some (if has_semantics_of a b then Some a else None)
+  | _ => None
   end.
 
 (* arms 11-13: enums; get_enum_from_uid(..).unwrap() is Crash 1 *)
@@ -272,7 +309,8 @@ Definition lift_arm (o : option (option ty)) : option (result (option ty)) :=
 Fixpoint tmax (m : enum_map) (a b : ty) {struct a} : result (option ty) :=
   if ty_eqb a b then Ok (Some a) else
   match lift_arm (max_arm_numbers a b) with Some r => r | None =>
-  match lift_arm (max_arm_distinct a b) with Some r => r | None =>
+  match lift_arm (max_arm_distinct_r a b) with Some r => r | None =>
+  match lift_arm (max_arm_distinct_l a b) with Some r => r | None =>
   match max_arm_enum m a b with Some r => r | None =>
   match (match a, b with
          | Optional l, Optional r =>                      (* arm 14 *)
@@ -307,7 +345,7 @@ Fixpoint tmax (m : enum_map) (a b : ty) {struct a} : result (option ty) :=
   match lift_arm (max_arm_type a b) with Some r => r | None =>
   match lift_arm (max_arm_unknown a b) with Some r => r | None =>
   Ok None
-  end end end end end end end end end end end.
+  end end end end end end end end end end end end.
 
 (* ---- can_be_created_from_nothing ---------------------------------------- *)
 Definition created_from_nothing (m : enum_map) (t : ty) : result bool :=
@@ -421,3 +459,5 @@ Fixpoint differentiate_fuel (fuel : nat) (m : enum_map) (a b : ty) : result bool
 
 Definition differentiate (m : enum_map) (a b : ty) : result bool :=
   differentiate_fuel (size a + size b) m a b.
+
+End WithFixes.
